@@ -45,7 +45,7 @@ A trace (see spec/TraceSchemes.tla):
                                     particle counts (fluid3: 1 particle;
                                     multi0: fluid3 has no particle)
   setup  {ok, stage, msg}           which set-up call raised, if any
-  arrays [{name, props[], n, lens [{size, props[]}], idx[]}]
+  arrays [{name, props[], n, lens [{size, props[]}], idx[], strides}]
                                     properties + constants after set-up; n =
                                     number of particles, lens = the
                                     properties grouped by (carray length /
@@ -56,7 +56,11 @@ A trace (see spec/TraceSchemes.tla):
          initialize_pair, loop, loop_all, post_loop; syms: the other
          arguments of loop; gd/gs: what the real Group machinery
          (Group([eq]).get_array_names()) says the equation reads, explicit
-         and symbol-implied - used to bind the symbol table of the spec
+         and symbol-implied - used to bind the symbol table of the spec;
+         need [{r, p, k}]: the values per particle (stride) the methods
+         address in d_p / s_p, read off their source (needed_strides);
+         strides [{p, k}] of an array: the declared strides other than 1;
+         mod: the module of the equation's class
   steppers [{array, cls, methods [{m, names[]}]}]
   symtab [{sym, d[], s[], deps[]}]  pysph.sph.equation.precomputed_symbols
   gen    {done, ok, kind, eq, msg}  code generation outcome; kind rejected =
@@ -106,6 +110,10 @@ TABLE = {
     'pysph.sph.scheme:TVFScheme': dict(
         ctor=dict(rho0=RHO0, c0=C0, p0=C0 * C0 * RHO0, pb=C0 * C0 * RHO0,
                   h0=H0),
+        # run leg: the inverse volume V of fluids and walls is an INPUT of
+        # the TVF equations: examples/cavity.py, poiseuille.py, couette.py
+        # set fluid.V and solid.V in create_particles
+        init_V=True,
         toggles=dict(nu=[0.0, NU], alpha=[0.0, 0.1])),
     'pysph.sph.scheme:AdamiHuAdamsScheme': dict(
         ctor=dict(rho0=RHO0, c0=C0, h0=H0),
@@ -119,6 +127,7 @@ TABLE = {
         ctor=dict(rho0=RHO0, c0=C0, h0=H0, pref=C0 * C0 * RHO0),
         # the default kernel (WendlandQuintic) has no 1-D form
         dims=(2, 3),
+        init_V=True,       # same equations and convention as TVFScheme
         toggles=dict(nu=[0.0, NU], alpha=[0.0, 0.1])),
     'pysph.sph.wc.edac:EDACScheme': dict(
         ctor=dict(c0=C0, rho0=RHO0, h=H0),
@@ -401,6 +410,8 @@ def array_abstraction(pa):
                 n=int(n),
                 lens=[dict(size=int(k), props=sorted(v))
                       for k, v in sorted(groups.items())],
+                strides=[dict(p=k, k=int(v))
+                         for k, v in sorted(pa.stride.items()) if v != 1],
                 idx=idx)
 
 
@@ -426,13 +437,114 @@ EQ_METHODS = ('initialize', 'initialize_pair', 'loop', 'loop_all',
               'post_loop')
 
 
+_STRIDE_CACHE = {}
+
+
+def needed_strides(meth):
+    """{argument name: K}: the values per particle a method addresses in an
+    array, read off its source: subscripts `name[K*d_idx + j]`,
+    `name[d_idx*K + j]`, `name[K*s_idx + ...]` (also through a local
+    variable assigned such an expression, and with loop variables of
+    `for j in range(N)`): K is the coefficient of the particle index, or
+    1 + the largest offset when that is larger.  Unrecognised index
+    expressions demand nothing."""
+    import ast
+    import textwrap
+    fn = getattr(meth, '__func__', meth)
+    if fn in _STRIDE_CACHE:
+        return _STRIDE_CACHE[fn]
+    out = {}
+    try:
+        tree = ast.parse(textwrap.dedent(inspect.getsource(fn)))
+    except Exception:
+        _STRIDE_CACHE[fn] = out
+        return out
+    fdef = tree.body[0]
+    args = set(a.arg for a in fdef.args.args)
+    loops = {}              # loop variable -> N of range(N) (largest seen)
+    assigns = {}            # local -> [expressions]
+    for node in ast.walk(fdef):
+        if isinstance(node, ast.For) and isinstance(node.target, ast.Name) \
+                and isinstance(node.iter, ast.Call) \
+                and getattr(node.iter.func, 'id', '') == 'range':
+            a = node.iter.args
+            n = a[-1] if len(a) <= 2 else None
+            prev = loops.get(node.target.id, 0)
+            if isinstance(n, ast.Constant) and isinstance(n.value, int) \
+                    and prev is not None:
+                loops[node.target.id] = max(prev, n.value)
+            else:
+                loops[node.target.id] = None
+        elif isinstance(node, ast.Assign) and len(node.targets) == 1 \
+                and isinstance(node.targets[0], ast.Name):
+            assigns.setdefault(node.targets[0].id, []).append(node.value)
+        elif isinstance(node, ast.AugAssign) and \
+                isinstance(node.target, ast.Name):
+            assigns.setdefault(node.target.id, []).append(None)
+
+    def lin(e, depth=0):
+        """(coefficient of the particle index, largest offset, exact)"""
+        if isinstance(e, ast.Constant) and isinstance(e.value, int):
+            return (0, e.value, True)
+        if isinstance(e, ast.Name):
+            if e.id in ('d_idx', 's_idx'):
+                return (1, 0, True)
+            if e.id in loops:
+                n = loops[e.id]
+                return (0, n - 1, True) if n else (0, 0, False)
+            if e.id in assigns and depth < 4:
+                vals = [lin(v, depth + 1) if v is not None else None
+                        for v in assigns[e.id]]
+                vals = [v for v in vals if v is not None]
+                # `idx = declare('int')` and the like are not recognised
+                if len(vals) == 1:
+                    return vals[0]
+                if vals and len(set(v[0] for v in vals)) == 1:
+                    return (vals[0][0], max(v[1] for v in vals), False)
+            return None
+        if isinstance(e, ast.BinOp):
+            a, b = lin(e.left, depth), lin(e.right, depth)
+            if isinstance(e.op, ast.Add):
+                if a is None and b is None:
+                    return None
+                if a is None or b is None:
+                    k = a or b       # K*d_idx + <unknown>: keep K only
+                    return (k[0], k[1], False) if k[0] else None
+                return (a[0] + b[0], a[1] + b[1], a[2] and b[2])
+            if isinstance(e.op, ast.Mult) and a is not None \
+                    and b is not None:
+                for c, x in ((a, b), (b, a)):
+                    if c[0] == 0 and c[2] and isinstance(
+                            e.left if c is a else e.right, ast.Constant):
+                        return (c[1] * x[0], c[1] * x[1], x[2])
+            return None
+        return None
+
+    for node in ast.walk(fdef):
+        if isinstance(node, ast.Subscript) and \
+                isinstance(node.value, ast.Name) and \
+                node.value.id in args and \
+                node.value.id.startswith(('d_', 's_')):
+            idx = node.slice
+            r = lin(idx)
+            if r is None or r[0] < 2:
+                continue
+            k = max(r[0], r[1] + 1) if r[2] else r[0]
+            out[node.value.id] = max(out.get(node.value.id, 1), k)
+    _STRIDE_CACHE[fn] = out
+    return out
+
+
 def eq_abstraction(eq, stage):
     from pysph.sph.equation import Group, get_array_names
     d, s, syms = set(), set(), set()
+    need = {}
     for mn in EQ_METHODS:
         meth = getattr(eq, mn, None)
         if meth is None:
             continue
+        for a, k in needed_strides(meth).items():
+            need[a] = max(need.get(a, 1), k)
         args = inspect.getfullargspec(meth).args
         ss, dd = get_array_names(args)
         d |= set(a[2:] for a in dd)
@@ -444,6 +556,9 @@ def eq_abstraction(eq, stage):
     return dict(cls=type(eq).__name__, dest=str(eq.dest),
                 sources=[str(x) for x in (eq.sources or [])],
                 d=sorted(d), s=sorted(s), syms=sorted(syms), stage=stage,
+                need=[dict(r=a[0], p=a[2:], k=int(need[a]))
+                      for a in sorted(need)],
+                mod=type(eq).__module__,
                 gd=sorted(a[2:] for a in gd), gs=sorted(a[2:] for a in gs))
 
 
@@ -457,7 +572,10 @@ def stepper_abstraction(name, stepper):
                 continue
             args = inspect.getfullargspec(meth).args
             ss, dd = get_array_names(args)
-            methods.append(dict(m=mn, names=sorted(a[2:] for a in ss | dd)))
+            nd = needed_strides(meth)
+            methods.append(dict(m=mn, names=sorted(a[2:] for a in ss | dd),
+                                need=[dict(r=a[0], p=a[2:], k=int(nd[a]))
+                                      for a in sorted(nd)]))
     return dict(array=name, cls=type(stepper).__name__, methods=methods)
 
 
@@ -493,7 +611,7 @@ def step(stage, fn, *a, **kw):
         raise Stage(stage, ex)
 
 
-def set_initial_state(pas, gas):
+def set_initial_state(pas, gas, init_v=False):
     """What a create_particles would do after setup_properties: a fluid at
     rest with a physically meaningful thermodynamic state (the arrays are
     otherwise zero).  Only used before the 3-step run."""
@@ -505,7 +623,7 @@ def set_initial_state(pas, gas):
                 pa.p[:] = 0.4 * RHO0 * 2.5
             if 'cs' in props:
                 pa.cs[:] = np.sqrt(1.4 * 0.4 * 2.5)
-        if 'V' in props:
+        if init_v and 'V' in props:
             pa.V[:] = 1.0 / DX ** 2
         if 'rho0' in props:
             pa.rho0[:] = pa.rho
@@ -621,7 +739,8 @@ def run_case(case):
     # ---- compile, 3 steps, finiteness --------------------------------------
     try:
         from pysph.base.nnps import LinkedListNNPS
-        set_initial_state(pas, ent.get('gas', False))
+        set_initial_state(pas, ent.get('gas', False),
+                          ent.get('init_V', False))
         domain = None
         if ent.get('periodic'):
             from pysph.base.nnps import DomainManager
